@@ -47,6 +47,18 @@ Proof. exact (cm_compress_best_le_first parse rules packet d fs pl s1 s2). Qed.
 (* a no-compression rule always applies, so a rule set containing one compresses every parsable packet *)
 Theorem c10_default_applies pd r : rule_nature r = NoCompression -> spec_rule_applies pd r = true.
 Proof. exact (nocompression_always_applies pd r). Qed.
+(* a fragmentation rule never applies (C04), hence is never selected: the outcome of ContextManager.compress, under either strategy,
+   result or exception, is that of the rule set without its fragmentation rules (no typing premise: their descriptors are never
+   read); a rule set of fragmentation rules only compresses nothing *)
+Theorem c10_fragmentation_never_applies pd r : rule_nature r = Fragmentation -> spec_rule_applies pd r = false.
+Proof. exact (fragmentation_never_applies pd r). Qed.
+Theorem c10_fragmentation_never_selected parse rules packet d st :
+  cm_compress parse rules packet d st = cm_compress parse (filter not_fragmentation rules) packet d st.
+Proof. exact (cm_compress_ignores_fragmentation parse rules packet d st). Qed.
+Theorem c10_only_fragmentation parse rules packet d st p :
+  parse packet = Ok p -> Forall (fun r => rule_nature r = Fragmentation) rules ->
+  cm_compress parse rules packet d st = Exc RuleDescriptorMatchError.
+Proof. exact (cm_compress_only_fragmentation parse rules packet d st p). Qed.
 
 Example c10_ex :
   let r1 := mkrule [true;true;false] NoCompression [] in let r2 := mkrule [false] NoCompression [] in
@@ -65,11 +77,29 @@ Theorem c10_manager_bytes bparse parse rules packet d st :
 Proof. exact (bcm_compress_refines bparse parse rules packet d st). Qed.
 Theorem c10_factory_refines s : parser_refines (bfactory s) (Parsers.factory s).
 Proof. exact (bfactory_parser_refines s). Qed.
+Theorem c10_fragmentation_never_selected_bytes bparse rules packet d st :
+  bcm_compress bparse rules packet d st = bcm_compress bparse (filter bnot_fragmentation rules) packet d st.
+Proof. exact (bcm_compress_ignores_fragmentation bparse rules packet d st). Qed.
+
+(* non-vacuity: the fragmentation rule has the shortest output (its bare id) and comes first, yet neither strategy takes it *)
+Example c10_fragmentation_ex :
+  let r0 := mkrule [true] Fragmentation [] in
+  let r1 := mkrule [true;true;false] NoCompression [] in let r2 := mkrule [false] NoCompression [] in
+  let parse := (fun b : bits => Ok ([mkfield (mkfid P_Other 1) b 0], @nil bool)) in
+  compress (mkpdesc Up [mkfield (mkfid P_Other 1) [true;false] 0] []) r0 (Some Up) = Ok [true] /\
+  cm_compress parse [r0; r1; r2] [true;false] Up FIRST = Ok [true;true;false;true;false] /\
+  cm_compress parse [r0; r1; r2] [true;false] Up BEST = Ok [false;true;false] /\
+  cm_compress parse [r0] [true;false] Up FIRST = Exc RuleDescriptorMatchError.
+Proof. vm_compute. repeat split; reflexivity. Qed.
 
 Print Assumptions c10_first.
 Print Assumptions c10_best.
 Print Assumptions c10_best_earliest.
 Print Assumptions c10_best_le_first.
 Print Assumptions c10_default_applies.
+Print Assumptions c10_fragmentation_never_applies.
+Print Assumptions c10_fragmentation_never_selected.
+Print Assumptions c10_only_fragmentation.
+Print Assumptions c10_fragmentation_never_selected_bytes.
 Print Assumptions c10_manager_bytes.
 Print Assumptions c10_factory_refines.
